@@ -52,6 +52,7 @@ class Task(object):
         self.unwound = threading.Event()
         self.blocked_on = None
         self.on_exit = None
+        self.pending_exc = None   # exception to raise in this task at its next scheduling point (a signal handler ran)
 
     def __repr__(self):
         return '<Task %d %s %s>' % (self.id, self.name, self.state)
@@ -169,6 +170,8 @@ class Sim(object):
             return  # a thread being unwound, or foreign
         if cur.killed or self.shut or getattr(self._tls, 'quiet', False):
             return
+        if cur.pending_exc is not None:
+            self._deliver_pending(cur)
         idx = self.line_points
         self.line_points += 1
         if self.point_owner is not None:
@@ -266,6 +269,7 @@ class Sim(object):
         cur = self._me()
         if self.shut or getattr(self._tls, 'quiet', False):
             return
+        self._deliver_pending(cur)
         self._count_step()
         self._charge()
         if self.prim_p <= 0:
@@ -344,7 +348,22 @@ class Sim(object):
         cur.blocked_on = None
         if cur.wake_reason == 'deadlock':
             raise SimDeadlock('simulated deadlock at t=%.3f' % self.now)
+        self._deliver_pending(cur)
         return cur.wake_reason
+
+    def interrupt(self, task, exc):
+        """Asynchronous exception (what a Python-level signal handler raises, e.g. KeyboardInterrupt): raised in `task`
+        at its next scheduling point; a blocked task is woken for it."""
+        if task.state in (DONE, DEAD):
+            return
+        task.pending_exc = exc
+        self.run.ev('interrupt', task.id, type(exc).__name__)
+        self.wake(task, 'interrupt')
+
+    def _deliver_pending(self, cur):
+        if cur.pending_exc is not None and not cur.killed:
+            exc, cur.pending_exc = cur.pending_exc, None
+            raise exc
 
     def _deadlock(self, cur):
         self.deadlocked = True
